@@ -406,10 +406,22 @@ def translate(hist, obs, ext=False):
             gets = [s2ip(c[1]) for c in calls if c[0] == "get"]
             dels = [s2ip(c[1]) for c in calls if c[0] == "delete"]
             nclear = 0
-            if ent and any(c[3] for c in cloud):
+            oun = []
+            fupd = None
+            if k == "api_release":
+                # K3b (repaired): UpdateAttr of this IP only (one get + update), then the release
+                if ent and any(c[3] for c in cloud):
+                    nclear = 1
+            elif ent and cloud and all(c[3] for c in cloud):
                 key = ent[0][1]
                 nclear = len([e for e in prev["alloc"] if e[1] == key and (e[3] != "" or e[4] != "")])
+            if k != "api_release":
+                oun = [s2ip(c[1]) for c in cloud]          # the unassign loop's order (a failing call is its last element)
             oclear, rest = gets[:nclear], gets[nclear:]
+            if k == "api_release":
+                oclear = []
+            else:
+                oclear = oun + oclear
             order = dels or rest
             if k in ("resync", "resync_item"):
                 t = "(PResync %s %s %s %s)" % (cN(ip), coracle(order=order), clist(cN(x) for x in oclear), cfaults(cloud=fcloud))
